@@ -17,6 +17,22 @@ operation  size <= cap <= 4*size + 3  (the integer form of the code's own
 buffer holding 1 byte, which is rounding); for size == 0 a buffer of at most 3
 bytes may remain; after truncate cap == size (no buffer at all when empty).
 
+Refused allocations: in the array, typed-array, queue and map histories the
+driver arms the tracking allocator's failpoint with a small probability per
+operation, so that the next (sometimes second next; in init calls 1st..3rd)
+allocation attempt of the library is refused once.  An operation during which
+an attempt was refused must return its failure value (-1 / NULL; errno ENOMEM
+for the array and queue calls, whose headers promise errno) and leave the
+container exactly as the model had it before the call (the model is not
+advanced, the history continues and everything later must still match: same
+contents, same size, the same next number), or - calls that cannot report
+failure: shrink, queue/map delete - take full effect; a refused shrinking
+realloc is the documented exception to the factor-4 rule and lifts the upper
+capacity bound until the next call that changes the array.  A failed init must
+leave no block behind.  Pool histories get no refusals.  (C14 enumerates
+allocation failures exhaustively for fixed scenarios; here they are one more
+kind of event inside random histories.)
+
 This module only draws history parameters, runs the driver, and collects
 results, signatures and counters.  One case = one line = one history; pool
 histories run one per process so that the exit-time check belongs to the case.
@@ -201,6 +217,14 @@ def run(ctx):
     need = ['arr_grow', 'arr_shrink_realloc', 'arr_overflow_refused', 'arr_export',
             'typed_grow', 'q_move_to_front_seen', 'map_multi_trim',
             'map_delete_unknown', 'pool_doublings', 'pool_exit_checks']
+    # refused allocations: every kind must have seen failed-and-unchanged
+    # operations, absorbed refusals and failed inits
+    for kind in ('arr', 'typed', 'q', 'map'):
+        need += [kind + '_alloc_refused', kind + '_oom_failed_unchanged',
+                 kind + '_oom_init_null_no_leak']
+    need += ['arr_oom_shrink_took_effect', 'typed_oom_shrink_took_effect',
+             'q_oom_delete_took_effect', 'map_oom_delete_took_effect',
+             'arr_checks_under_shrink_exception']
     if not ctx.violations:
         missing = [k for k in need if cov.get(k, 0) == 0]
         if missing:
@@ -214,15 +238,27 @@ def run(ctx):
         'grow / keep / shrink decisions and the queue move-to-front are crossed repeatedly; map deletions in '
         'FIFO, middle-first, newest-first and mixed styles incl. already deleted, negative, beyond-the-end '
         'and INT64 extremes; pool target levels 0..1500 around cache sizes 1,4,8,..; '
+        'refused allocations (array, typed, queue, map histories; not pool): per operation with probability '
+        '6% (array/typed) / 10% (queue/map) / 30% (init) the tracking allocator is armed to refuse once the next '
+        '(1 in 4: the second next; init: 1st..3rd) allocation attempt of the library; an operation during which '
+        'an attempt was refused must return -1/NULL (array/queue: errno ENOMEM) and leave the container exactly as '
+        'the model had it before the call (model not advanced, history continues, the next map number is the same) '
+        '[*_oom_failed_unchanged], or - shrink / queue delete / map delete, which cannot fail - take full effect '
+        '[*_oom_*_took_effect; refused shrink = documented exception: only the upper capacity bound is lifted until '
+        'the next call that changes the array]; a failed init must leave no block [*_oom_init_null_no_leak]; '
+        '*_alloc_refused = operations during which an attempt was refused; '
         'non-trivial = array/typed: >=1 growing and >=1 shrinking reallocation (array: and >=1 refused overflow); '
         'queue: >=2 observed move-to-front; map: >=1 trim of several tombstones, >=1 unknown and >=1 repeated '
         'deletion; pool: >=1 doubling with fewer real than pool mallocs; '
         'distinct = distinct FNV signature of the executed operation sequence (codes and sizes)')
     cov['capacity_oracle'] = ('size <= cap <= 4*size+3 after every operation (cap = tracked size of the block '
-                              'record 0 lives in; empty array: at most a 3-byte buffer); cap == size after truncate')
+                              'record 0 lives in; empty array: at most a 3-byte buffer); cap == size after a '
+                              'successful truncate; after a shrink whose realloc was refused only size <= cap, '
+                              'until the next successful append/resize/shrink/truncate')
     cov['sanitizers'] = 'gcc -fsanitize=address,undefined; append sources in exact-size blocks'
     ctx.assumptions += [
-        'no allocation is refused in this check (refused shrink = documented exception, see C14)',
+        'refused allocations are sampled, one per operation, at random points of random histories (exhaustive '
+        'enumeration of failure points for fixed scenarios is C14); none in the pool histories',
         'the pool check links the real pool (LIBCPERCIVA_VERIF_NOPOOL not defined)',
         'histories are random samples; array contents up to 70000 bytes, queues up to a few thousand records',
     ]
